@@ -783,6 +783,52 @@ def disp8(ctx) -> List[Ob]:
     for v, ks in sorted(rev.items()):
         if len(ks) > 1:
             out.append(bad("DISP-8", "<module>", f"class {v} registered twice", where_reg, f"class {v} is registered under {sorted(ks)}: the writer's reverse lookup picks one, the round trip changes the type name"))
+    # the writer's class -> type-name lookup returns each registered class's own name
+    rl = next((f for f in prog.functions if f.name == "reverse_lookup" and f.parent_fn is io["to_dict"]), None)
+    key = "writer looks a class up under its own name"
+    if rl is None:
+        out.append(unresolved("DISP-8", io["to_dict"].qualname, key, ctx.where(io["to_dict"]), "no reverse_lookup helper in to_dict: cannot see how a class is mapped to its type name"))
+    else:
+        vparam = rl.params[0].arg
+        lps = [lp for lp in A.walk_no_nested(rl.node) if isinstance(lp, ast.For)]
+        verdict_ = None
+        if len(lps) == 1 and isinstance(lps[0].target, ast.Tuple) and len(lps[0].target.elts) == 2:
+            lp = lps[0]
+            kv, cv = [A.unparse(e) for e in lp.target.elts]
+            it = lp.iter
+            rev_order = False
+            if isinstance(it, ast.Call) and isinstance(it.func, ast.Name) and it.func.id == "reversed" and it.args:
+                rev_order, it = True, it.args[0]
+            ifs = [n for n in lp.body if isinstance(n, ast.If)]
+            if A.unparse(it) == "block_type_names.items()" and len(ifs) == 1 and ifs[0].body and isinstance(ifs[0].body[0], ast.Return) and A.unparse(ifs[0].body[0].value) == kv:
+                t = A.unparse(ifs[0].test)
+                if t in (f"{cv} == {vparam}", f"{vparam} == {cv}", f"{cv} is {vparam}", f"{vparam} is {cv}"):
+                    mode = "exact"
+                elif t == f"issubclass({vparam}, {cv})":
+                    mode = "sub"
+                else:
+                    mode = None
+                if mode is not None:
+                    order = list(reg_names.items())
+                    if rev_order:
+                        order.reverse()
+                    wrong = []
+                    for own_key, cname in reg_names.items():
+                        got = None
+                        for k2, c2 in order:
+                            if (mode == "exact" and c2 == cname) or (mode == "sub" and cname in prog.classes and c2 in prog.classes and prog.classes[cname].is_subclass_of(prog.classes[c2])):
+                                got = k2
+                                break
+                        if got != own_key:
+                            wrong.append((cname, own_key, got))
+                    verdict_ = (mode, wrong)
+        if verdict_ is None:
+            out.append(unresolved("DISP-8", rl.qualname, key, ctx.where(rl), "reverse_lookup is not a first-match scan of block_type_names.items() with a recognised class test"))
+        elif verdict_[1]:
+            cname, own, got = verdict_[1][0]
+            out.append(bad("DISP-8", rl.qualname, key, ctx.where(rl), f"a block of class {cname} is written as '{got}' instead of '{own}' (first match of a subclass test in registry order): it is read back as another class" + (f"; also {[w[0] for w in verdict_[1][1:]]}" if len(verdict_[1]) > 1 else "")))
+        else:
+            out.append(ok("DISP-8", rl.qualname, key, ctx.where(rl), f"{verdict_[0]} match: each of the {len(reg_names)} registered classes maps to its own type name"))
     # (c) instantiable classes registered
     inst = instantiated_block_classes(prog, ctx.typer)
     for cname, sites in sorted(inst.items()):
@@ -972,6 +1018,30 @@ def disp9(ctx) -> List[Ob]:
                     out.append(ok("DISP-9", mk.qualname, tkey, ctx.where(mk), f"field '{k}' is written as a name (str) and restored to an object by the reader (object.__setattr__)"))
                 else:
                     out.append(bad("DISP-9", mk.qualname, tkey, ctx.where(mk), f"field '{k}' of {K.name} is written as a name (str) and read back into the object-typed field without being restored"))
+    # the name of the outermost region: written (as parent_region of the regions directly below it)
+    # but not a block of the dictionary, and generated afresh whenever an SCFG object is constructed
+    writes_parent_name = any(k == "parent_region" and isinstance(e, ast.Attribute) and e.attr == "name" for arm in arms if arm.test is not None for s_ in A.walk_no_nested(ast.Module(arm.body, [])) if isinstance(s_, ast.Assign) and len(s_.targets) == 1 and isinstance(s_.targets[0], ast.Subscript) and isinstance(s_.targets[0].slice, ast.Constant) for k, e in [(s_.targets[0].slice.value, s_.value)])
+    if writes_parent_name:
+        key = "name of the outermost region restored on read"
+        graphs = {A.unparse(s_.targets[0]) for s_ in A.walk_no_nested(mk.node) if isinstance(s_, ast.Assign) and isinstance(s_.value, ast.Call) and (A.dotted(s_.value.func) or "").split(".")[-1] == "SCFG"}
+        good = None
+        for c in A.walk_no_nested(mk.node):
+            if isinstance(c, ast.Call) and (A.dotted(c.func) or "") == "object.__setattr__" and len(c.args) == 3 and isinstance(c.args[1], ast.Constant) and c.args[1].value == "name":
+                tgt, val = c.args[0], c.args[2]
+                if isinstance(tgt, ast.Attribute) and tgt.attr == "region" and A.unparse(tgt.value) in graphs and isinstance(val, ast.Attribute) and val.attr == "parent_region":
+                    r = A.unparse(val.value)
+                    # the recorded name must be read before the pointer fix-up of the same region overwrites it
+                    later = [c2 for c2 in A.walk_no_nested(mk.node) if isinstance(c2, ast.Call) and (A.dotted(c2.func) or "") == "object.__setattr__" and len(c2.args) == 3 and A.unparse(c2.args[0]) == r and isinstance(c2.args[1], ast.Constant) and c2.args[1].value == "parent_region"]
+                    if later and all(A.lineno(c) < A.lineno(c2) for c2 in later):
+                        good = c
+                    else:
+                        good = False
+        if good:
+            out.append(ok("DISP-9", mk.qualname, key, ctx.where(mk, good), "the graph's own region takes the name recorded as parent_region of the regions directly below it, read before that field is turned into a pointer"))
+        elif good is False:
+            out.append(bad("DISP-9", mk.qualname, key, ctx.where(mk), "the recorded name is read after parent_region has been replaced by the object pointer: the outermost region is renamed to a RegionBlock, not to the recorded name"))
+        else:
+            out.append(bad("DISP-9", mk.qualname, key, ctx.where(mk), "the writer records the name of the outermost region (parent_region of the regions directly below it), but every SCFG the reader constructs generates a fresh region name: writing the graph that was read gives another parent_region ('meta_region_4' for 'meta_region_0')"))
     # sibling cross-check: pointer bookkeeping of extract_region vs. the reader
     er = prog.find_function("extract_region")
     if er is None:
